@@ -20,6 +20,7 @@ class _Watchdog(object):
         self.active = None          # (gen, z3 context, cpu start, budget in seconds)
         self.thread = None
         self.pid = None
+        self.fired = False
 
     def _run(self):
         while True:
@@ -34,6 +35,7 @@ class _Watchdog(object):
                         zctx.interrupt()
                     except Exception:
                         pass
+                    self.fired = True
                     self.active = None
 
     def ensure(self):
@@ -49,12 +51,15 @@ class _Watchdog(object):
         self.ensure()
         with self.lock:
             self.gen += 1
+            self.fired = False
             self.active = (self.gen, zctx, time.process_time(), budget_s)
 
     def disarm(self):
+        """Returns True if the watchdog interrupted the context during this arm period."""
         with self.lock:
             self.gen += 1
             self.active = None
+            return self.fired
 
 
 _WD = _Watchdog()
@@ -70,7 +75,14 @@ def check(solver, budget_ms, *assumptions):
         try:
             r = solver.check(*assumptions)
         finally:
-            _WD.disarm()
+            if _WD.disarm():
+                # z3's interrupt is sticky when it lands after the check has returned (the check finished by itself
+                # right at the budget): the next non-check API call (push, add ...) would fail with 'canceled'.  The
+                # start of any check clears it.
+                try:
+                    z3.Solver(ctx=solver.ctx).check()
+                except z3.Z3Exception:
+                    pass
         if r != z3.unknown:
             return r
         used = time.process_time() - c0
